@@ -38,18 +38,6 @@ theorem validBlock_error (d : Desc) (r : Rule) (h : validBlock d = .error r) : r
 
 /-! ### the three stages at which btcd applies the rules, and the oracle they induce -/
 
-/-- 0 = checkBlockSanity (context free), 1 = checkBlockContext, 2 = checkConnectBlock -/
-def stage : Rule → Nat
-  | .powTarget | .powHash | .timeNew | .noTx | .baseSize | .firstCoinbase | .multiCoinbase
-  | .txNoInputs | .txNoOutputs | .txTooBig | .outValue | .dupInputs | .cbScriptLen | .nullPrevout
-  | .merkle | .dupTx | .sigopsLegacy => 0
-  | .bits | .timeOld | .timewarp | .version | .finality | .bip34Height | .witnessCommit
-  | .unexpectedWitness | .weight => 1
-  | .bip30 | .missingInput | .immature | .inValue | .spendTooHigh | .feeRange | .coinbaseValue
-  | .seqLocks | .scripts | .sigopsCost => 2
-
-def stageOk (k : Nat) (d : Desc) : Bool := Rule.all.all (fun r => stage r != k || ruleOk r d)
-
 theorem stage_lt (r : Rule) : stage r = 0 ∨ stage r = 1 ∨ stage r = 2 := by
   cases r <;> simp [stage]
 
